@@ -187,7 +187,7 @@ def run(rep, F, D_int, D_con, tier):
 
 
 def tabulate(rep, F, D, inst, fn, key, a, b, ref):
-    ex = Symex(F, no_inline=HELPERS + [r"Relate::relate$", r"::to_polygon$", r"coordinate_position$"], max_paths=20000, mono=D.M, budget_s=60, concrete_iters=True, loop_bound=6)
+    ex = Symex(F, no_inline=HELPERS + [r"Relate::relate$", r"::to_polygon$", r"coordinate_position$", r"::orient2d$"], max_paths=20000, mono=D.M, budget_s=60, concrete_iters=True, loop_bound=6)
     try:
         paths = ex.run(fn, inst=inst)
     except Unanalysable as e:
